@@ -259,8 +259,11 @@ pub fn parse_args() -> (Cmd, Tier) {
 impl Report {
     pub fn new(property: &str, tier: Tier) -> Self {
         let seed = std::env::var("VERIF_SEED").ok().and_then(|s| s.parse::<i64>().ok()).unwrap_or(0);
-        // a panic inside the harness itself (outside catch_unwind-wrapped subject calls) is a
-        // machinery error: make sure it cannot be mistaken for a verdict.
+        // a panic outside catch-wrapped subject calls ends the run: classified by where it
+        // was raised (see fatal_panic) so that a harness bug cannot be mistaken for a verdict
+        // and an implementation panic is not lost as a mere crash
+        let _ = RUN_INFO.set((property.to_string(), tier.name().to_string(), Instant::now()));
+        install_hook();
         Report {
             property: property.to_string(),
             tier,
@@ -459,6 +462,10 @@ pub fn load_replay(path: &std::path::Path) -> (String, Value) {
 /// identical observations, print them, exit 1 if the case (still) violates.
 pub fn replay_main<F: Fn(&Value, &mut Sink)>(property: &str, path: &std::path::Path, judge: F) -> i32 {
     let (sig, case) = load_replay(path);
+    if case["check"] == "uncaught-panic" {
+        println!("replay {property}: the recorded violation is a panic inside the implementation at {}:{} ({}); it aborted the run, so the failing input is not recorded - re-run `{}` (it fails at the same site on every run: the enumeration order is fixed)", case["file"].as_str().unwrap_or("?"), case["line"], case["message"].as_str().unwrap_or(""), case["replay"].as_str().unwrap_or(""));
+        return 2;
+    }
     let mut s1 = Sink::new();
     judge(&case, &mut s1);
     let mut s2 = Sink::new();
@@ -485,7 +492,10 @@ pub fn replay_main<F: Fn(&Value, &mut Sink)>(property: &str, path: &std::path::P
 /// Run `f` catching panics; returns Err(message) on panic. The default panic hook is
 /// silenced for the duration of the harness (installed once by `quiet_panics`).
 pub fn catch<R, F: FnOnce() -> R + std::panic::UnwindSafe>(f: F) -> Result<R, String> {
-    match std::panic::catch_unwind(f) {
+    CATCH_DEPTH.with(|c| c.set(c.get() + 1));
+    let r = std::panic::catch_unwind(f);
+    CATCH_DEPTH.with(|c| c.set(c.get() - 1));
+    match r {
         Ok(r) => Ok(r),
         Err(e) => {
             let msg = if let Some(s) = e.downcast_ref::<&str>() {
@@ -502,15 +512,78 @@ pub fn catch<R, F: FnOnce() -> R + std::panic::UnwindSafe>(f: F) -> Result<R, St
 
 thread_local! {
     pub static LAST_PANIC_LOC: std::cell::RefCell<String> = std::cell::RefCell::new(String::new());
+    /// > 0 while this thread is inside `catch` (a panic there is expected and handled)
+    static CATCH_DEPTH: std::cell::Cell<u32> = const { std::cell::Cell::new(0) };
+}
+
+/// (property, tier) of the running check, for the fatal-panic handler
+static RUN_INFO: std::sync::OnceLock<(String, String, Instant)> = std::sync::OnceLock::new();
+
+fn panic_message(info: &std::panic::PanicHookInfo<'_>) -> String {
+    if let Some(s) = info.payload().downcast_ref::<&str>() {
+        s.to_string()
+    } else if let Some(s) = info.payload().downcast_ref::<String>() {
+        s.clone()
+    } else {
+        "<non-string panic>".to_string()
+    }
+}
+
+/// A panic outside `catch` ends the check. If it was raised inside stats-ci (or inside
+/// statrs on its behalf) on an input the check expected an answer for, that is a violation
+/// of the property under check and is reported as one (exit 1, VIOLATION line, replay file
+/// naming the panic site); a panic anywhere else is a bug of the harness (exit 3).
+fn fatal_panic(file: &str, line: u32, msg: &str) -> ! {
+    let (property, tier, start) = match RUN_INFO.get() {
+        Some(x) => (x.0.clone(), x.1.clone(), x.2),
+        None => {
+            eprintln!("MACHINERY-ERROR: panic at {file}:{line}: {msg}");
+            std::process::exit(3)
+        }
+    };
+    let in_impl = file.starts_with("src/") || file.contains("/repo/") || file.contains("/statrs-");
+    if !in_impl {
+        eprintln!("MACHINERY-ERROR: harness panic at {file}:{line}: {msg}");
+        std::process::exit(3);
+    }
+    let root = verif_root();
+    let _ = std::fs::create_dir_all(root.join("replays"));
+    let _ = std::fs::create_dir_all(root.join("evidence"));
+    let sig = format!("uncaught-panic-in-implementation/{file}:{line}");
+    let detail = format!("stats-ci panicked at {file}:{line} ({msg}) on an input for which the check expects an answer; the run was aborted at that point");
+    let path = root.join("replays").join(format!("{property}-000.json"));
+    let body = json!({"property": property, "signature": sig, "detail": detail, "count_in_this_run": 1,
+        "case": {"check": "uncaught-panic", "file": file, "line": line, "message": msg, "replay": format!("./run.sh {property} {tier}")}});
+    let _ = std::fs::write(&path, serde_json::to_string_pretty(&body).unwrap());
+    let ev = json!({
+        "property_id": property, "tier": tier, "seed": 0, "level": "model_checking",
+        "coverage": {"states": 0, "transitions": 0, "traces_validated_against_impl": 0, "evaluations": 0, "distinct_nontrivial": 0,
+            "rule": "run aborted by a panic inside the implementation; counts of the aborted run are not available",
+            "samples": [body["case"].clone()], "exhaustive": false,
+            "violation_classes": [{"signature": sig, "count": 1, "known": false, "detail": detail, "replay": path}]},
+        "assumptions": [], "wall_s": start.elapsed().as_secs_f64(), "violations": 1, "known_findings_reported": 0,
+        "machinery_errors": []});
+    let _ = std::fs::write(root.join("evidence").join(format!("{property}.json")), serde_json::to_string_pretty(&ev).unwrap());
+    println!("VIOLATION property={property} replay={}", path.display());
+    println!("  signature: {sig}\n  detail: {detail}");
+    std::process::exit(1)
+}
+
+fn install_hook() {
+    std::panic::set_hook(Box::new(|info| {
+        let (file, line) = info.location().map(|l| (l.file().to_string(), l.line())).unwrap_or_default();
+        LAST_PANIC_LOC.with(|c| *c.borrow_mut() = format!("{file}:{line}"));
+        let expected = CATCH_DEPTH.with(|c| c.get()) > 0;
+        if !expected && RUN_INFO.get().is_some() {
+            fatal_panic(&file, line, &panic_message(info));
+        }
+    }));
 }
 
 /// Install a panic hook that records the location (file:line) in a thread-local and
 /// prints nothing; harness-internal panics are still visible through `catch`'s Err.
 pub fn quiet_panics() {
-    std::panic::set_hook(Box::new(|info| {
-        let loc = info.location().map(|l| format!("{}:{}", l.file(), l.line())).unwrap_or_default();
-        LAST_PANIC_LOC.with(|c| *c.borrow_mut() = loc);
-    }));
+    install_hook();
 }
 
 pub fn last_panic_loc() -> String {
